@@ -965,6 +965,10 @@ def check_entry(c, d, out, K, tag, want, intel):
         return
     carriers = {'INTEL': ('eof',), 'INTEL16': ('03',), 'INTEL32': ('05',), 'INTELx': ('eof', '03', '05')}[cls]
     limit = {'eof': 0xffff, '03': 0xfffff, '05': M32}
+    if want > (0xffff if cls == 'INTELx' else max(limit[k] for k in carriers)):
+        # wider than the record that has to carry it (unknown variant for the default format): manual silent
+        out.obs['entry_not_judged_too_wide'] += 1
+        return
     if d.entry is None:
         if want == 0 and 'eof' in carriers:
             out.obs['entry_checked'] += 1      # a zero start address in the end record is the plain end record
